@@ -144,6 +144,7 @@ def load_targets():
             d["consts"], d["structs"] = list(d["consts"]), list(d["structs"])
             d["externals"], d["foreign_structs"] = dict(d["externals"]), dict(d["foreign_structs"])
             d["tuple_structs"] = list(d.get("tuple_structs", []))
+            d["fns_from"] = list(d.get("fns_from", []))
             by[d["area"]] = d; tgs.append(d)
             return
         t = by[d["area"]]
@@ -155,6 +156,7 @@ def load_targets():
         t["externals"].update(d.get("externals", {}))
         t["foreign_structs"].update(d.get("foreign_structs", {}))
         t["tuple_structs"] += [n for n in d.get("tuple_structs", []) if n not in t["tuple_structs"]]
+        t["fns_from"] += [n for n in d.get("fns_from", []) if n not in t["fns_from"]]
     for t in TARGETS: add(t, "TARGETS")
     for path in sorted(glob.glob(os.path.join(HERE, "fn_targets", "*.json"))):
         try:
@@ -171,7 +173,8 @@ FIXTURE_PROP = "FIX"    # functions of harness/src/props/fn_gen_fixture.rs: diff
 
 def unit_for(repo, tg):
     u = Unit(repo, tg["rel"], "VlsModel.Gen.Fn" + tg["area"], tg.get("consts", ()), tg.get("externals", {}),
-             tg.get("structs", ()), foreign_structs=tg.get("foreign_structs"), tuple_structs=tg.get("tuple_structs"))
+             tg.get("structs", ()), foreign_structs=tg.get("foreign_structs"), tuple_structs=tg.get("tuple_structs"),
+             fn_files=tg.get("fns_from", ()))
     u.log_macros = tuple(tg.get("log_macros", ()))     # declared logging-only macros of the file
     return u
 
